@@ -64,13 +64,24 @@ struct Fx {
     var: NodeId,
 }
 
+struct NullHistory;
+impl opcua::server::historical::HistoricalDataProvider for NullHistory {}
+impl opcua::server::historical::HistoricalEventProvider for NullHistory {}
+
 fn fx33() -> &'static Fx {
     static F: OnceLock<Fx> = OnceLock::new();
     F.get_or_init(|| {
         let fx = fixtures::server();
         // server configuration of this property: a minimum sampling interval of 1 µs, so that a
         // monitored item is sampled at every timer tick without the harness having to sleep
-        fx.server_state.write().min_sampling_interval_ms = 0.001;
+        {
+            let mut ss = fx.server_state.write();
+            ss.min_sampling_interval_ms = 0.001;
+            // history providers with the default (unsupported) answers, so that the history services
+            // decode their details and dispatch
+            ss.set_historical_data_provider(Box::new(NullHistory));
+            ss.set_historical_event_provider(Box::new(NullHistory));
+        }
         let mut a = fx.address_space.write();
         let ns_r = a.register_namespace("urn:verif:c33").expect("namespace");
         let evt_obj = NodeId::new(ns_r, "verif_c33_events");
@@ -183,6 +194,14 @@ struct S {
     own: Vec<NodeId>,
     added_refs: Vec<(NodeId, NodeId, NodeId)>,
     sub_id: Option<u32>,
+    /// every subscription / monitored item / continuation point the server handed out in this case
+    subs: Vec<u32>,
+    items: Vec<(u32, u32)>,
+    cps: Vec<ByteString>,
+    /// a second activated session on the same connection
+    token_b: NodeId,
+    /// how far the timer clock of `tick <ms>` runs ahead of the real clock
+    clock_ms: i64,
     ticks: i64,
     next_mi: u32,
 }
@@ -226,9 +245,14 @@ pub struct R {
 }
 
 impl S {
-    fn new() -> S {
+    /// `read_only`: the sessions of this case are created while the server configuration does not
+    /// let clients modify the address space
+    fn new(read_only: bool) -> S {
         let fx = fixtures::server();
         let _ = fx33();
+        if read_only {
+            fx.server_state.read().config.write().limits.clients_can_modify_address_space = false;
+        }
         if std::env::var("VERIF_PANIC_MSG").is_ok() {
             // debugging aid: show where a panic came from (main.rs silences the default hook)
             std::panic::set_hook(Box::new(|i| eprintln!("PANIC: {}", i)));
@@ -239,7 +263,15 @@ impl S {
             token = r.authentication_token.clone();
             let _ = conn.call(activate_request(&token, anonymous_token("anonymous"), SignatureData::null()));
         }
-        let session = conn.sessions().into_iter().next();
+        let session = conn.sessions().into_iter().find(|s| s.read().authentication_token() == &token);
+        let mut token_b = NodeId::null();
+        if let Ok(Some(SupportedMessage::CreateSessionResponse(r))) = conn.call(create_session_request(60000.0)) {
+            token_b = r.authentication_token.clone();
+            let _ = conn.call(activate_request(&token_b, anonymous_token("anonymous"), SignatureData::null()));
+        }
+        if read_only {
+            fx.server_state.read().config.write().limits.clients_can_modify_address_space = true;
+        }
         // three objects of this case's own (tokens o0..o2): references between two standard nodes are
         // never created, because removing them again could take standard references with them
         let mut own = Vec::new();
@@ -263,6 +295,11 @@ impl S {
             own,
             added_refs: Vec::new(),
             sub_id: None,
+            subs: Vec::new(),
+            items: Vec::new(),
+            cps: Vec::new(),
+            token_b,
+            clock_ms: 0,
             ticks: 0,
             next_mi: 1,
         }
@@ -305,12 +342,17 @@ impl S {
     }
 
     fn tick(&mut self) {
+        self.tick_ms(0)
+    }
+
+    /// The subscription timer fires.  `ms` moves the timer's clock further ahead of the real clock
+    /// (requests handled in between read the real clock, so the server also sees time going back).
+    fn tick_ms(&mut self, ms: i64) {
         let fx = fixtures::server();
-        // real time: requests handled by the server read the real clock too (a test clock that runs
-        // ahead of it would look like the wall clock jumping backwards, which is C26's subject)
         self.ticks += 1;
-        let now = chrono::Utc::now();
-        if let Some(s) = &self.session {
+        self.clock_ms = self.clock_ms.saturating_add(ms).min(400 * 24 * 3600 * 1000);
+        let now = chrono::Utc::now() + chrono::Duration::milliseconds(self.clock_ms);
+        for s in self.conn.sessions() {
             let a = fx.address_space.read();
             let mut s = s.write();
             let _ = tick_session_subscriptions(&mut s, &now, &a);
@@ -624,11 +666,11 @@ impl S {
 // ------------------------------------------------------------------------------------------------
 // generated requests of every service
 // ------------------------------------------------------------------------------------------------
-pub const SERVICES: [&str; 31] = [
+pub const SERVICES: [&str; 33] = [
     "read", "write", "browse", "browsenext", "translate", "regnodes", "unregnodes", "createsub", "modsub",
     "setpubmode", "delsubs", "transfer", "publish", "republish", "createmi", "modmi", "setmonmode", "settrig",
     "delmi", "call", "histread", "histupdate", "queryfirst", "querynext", "cancel", "addnodes", "addrefs",
-    "delnodes", "delrefs", "getendpoints", "findservers",
+    "delnodes", "delrefs", "getendpoints", "findservers", "regserver", "regserver2",
 ];
 
 struct G<'a> {
@@ -640,7 +682,7 @@ impl<'a> G<'a> {
     fn node(&mut self) -> NodeId {
         let f = fx33();
         match self.r.weighted(&[6, 3, 3, 2, 1, 1, 1, 1, 1]) {
-            0 => NodeId::new(0, *self.r.pick(&[84u32, 85, 86, 2253, 2256, 2258, 2259, 58, 61, 62, 63, 24, 31, 33, 35, 45, 47, 11492, 11489])),
+            0 => NodeId::new(0, *self.r.pick(&[84u32, 85, 86, 2253, 2256, 2258, 2259, 58, 61, 62, 63, 24, 31, 33, 35, 45, 47, 11492, 11489, 12873, 2041, 2994, 2267])),
             1 => f.var.clone(),
             2 => f.evt_obj.clone(),
             3 if !self.s.added.is_empty() => self.r.pick(&self.s.added).clone(),
@@ -649,6 +691,33 @@ impl<'a> G<'a> {
             6 => NodeId::new(*self.r.pick(&[1u16, 2, 7, 65535]), "strïng<id>"),
             7 => NodeId::new(self.r.below(4) as u16, ByteString::from(self.r.bytes(5))),
             _ => NodeId::new(self.r.below(70000) as u16, self.r.next() as u32),
+        }
+    }
+
+    /// a (node, attribute) pair that can be read / monitored
+    fn valid_target(&mut self) -> (NodeId, u32) {
+        let f = fx33();
+        match self.r.weighted(&[6, 3, 2, 2, 2]) {
+            0 => (f.var.clone(), 13),
+            1 => (f.evt_obj.clone(), 12),
+            2 => (NodeId::new(0, *self.r.pick(&[2258u32, 2259, 2256, 2267, 2994])), 13),
+            3 => (NodeId::new(0, *self.r.pick(&[2253u32, 85, 84])), *self.r.pick(&[1u32, 2, 3, 4, 5, 12])),
+            _ => (f.var.clone(), *self.r.pick(&[1u32, 2, 3, 4, 14, 15, 16, 17, 18, 19, 20])),
+        }
+    }
+
+    /// the session a request is sent on: mostly the first, sometimes the second one of the connection
+    fn token(&mut self) -> NodeId {
+        if self.r.chance(1, 10) { self.s.token_b.clone() } else { self.s.token.clone() }
+    }
+
+    fn item_id(&mut self, sub: u32) -> u32 {
+        let mine: Vec<u32> = self.s.items.iter().filter(|x| x.0 == sub).map(|x| x.1).collect();
+        match self.r.weighted(&[8, 2, 1, 1]) {
+            0 if !mine.is_empty() => *self.r.pick(&mine),
+            1 if !self.s.items.is_empty() => self.r.pick(&self.s.items).1,
+            2 => 0,
+            _ => self.r.below(8) as u32,
         }
     }
 
@@ -685,7 +754,7 @@ impl<'a> G<'a> {
     }
 
     fn variant(&mut self) -> Variant {
-        match self.r.below(12) {
+        match self.r.below(24) {
             0 => Variant::Empty,
             1 => Variant::Int32(self.r.next() as i32),
             2 => Variant::Boolean(self.r.chance(1, 2)),
@@ -697,7 +766,19 @@ impl<'a> G<'a> {
             8 => Variant::ByteString(ByteString::from(self.r.bytes(3))),
             9 => Variant::from(Vec::<i32>::new()),
             10 => Variant::DateTime(Box::new(DateTime::null())),
-            _ => Variant::Int64(i64::MIN),
+            11 => Variant::Int64(i64::MIN),
+            12 => Variant::UInt32(self.sub_id()),
+            13 => Variant::UInt32(self.u32b()),
+            14 => Variant::SByte(-128),
+            15 => Variant::Byte(255),
+            16 => Variant::Int16(i16::MIN),
+            17 => Variant::UInt16(u16::MAX),
+            18 => Variant::Float(f32::NAN),
+            19 => Variant::StatusCode(StatusCode::BadUnexpectedError),
+            20 => Variant::QualifiedName(Box::new(self.qname())),
+            21 => Variant::LocalizedText(Box::new(LocalizedText::from("t"))),
+            22 => Variant::from(vec![1u32, 2]),
+            _ => Variant::Int32(5),
         }
     }
 
@@ -711,6 +792,15 @@ impl<'a> G<'a> {
     }
 
     fn rvid(&mut self) -> ReadValueId {
+        if self.r.chance(2, 3) {
+            let (node_id, attribute_id) = self.valid_target();
+            return ReadValueId {
+                node_id,
+                attribute_id,
+                index_range: if self.r.chance(1, 8) { self.string() } else { UAString::null() },
+                data_encoding: QualifiedName::null(),
+            };
+        }
         ReadValueId {
             node_id: self.node(),
             attribute_id: self.attr(),
@@ -774,6 +864,48 @@ impl<'a> G<'a> {
         }
     }
 
+    fn valid_filter(&mut self, attribute_id: u32) -> ExtensionObject {
+        if attribute_id == 12 {
+            ExtensionObject::from_encodable(
+                ObjectId::EventFilter_Encoding_DefaultBinary,
+                &EventFilter {
+                    select_clauses: Some(vec![SimpleAttributeOperand {
+                        type_definition_id: ObjectTypeId::BaseEventType.into(),
+                        browse_path: Some(vec![QualifiedName::from(*self.r.pick(&["EventId", "Message", "Severity", "SourceNode", "Time"]))]),
+                        attribute_id: 13,
+                        index_range: UAString::null(),
+                    }]),
+                    where_clause: ContentFilter { elements: None },
+                },
+            )
+        } else {
+            match self.r.below(3) {
+                0 => ExtensionObject::null(),
+                _ => ExtensionObject::from_encodable(
+                    ObjectId::DataChangeFilter_Encoding_DefaultBinary,
+                    &DataChangeFilter {
+                        trigger: *self.r.pick(&[DataChangeTrigger::Status, DataChangeTrigger::StatusValue, DataChangeTrigger::StatusValueTimestamp]),
+                        deadband_type: self.r.below(2) as u32,
+                        deadband_value: *self.r.pick(&[0.0, 1.0, 10.0]),
+                    },
+                ),
+            }
+        }
+    }
+
+    fn mon_params_for(&mut self, attribute_id: u32) -> MonitoringParameters {
+        if self.r.chance(1, 4) {
+            return self.mon_params();
+        }
+        MonitoringParameters {
+            client_handle: self.r.below(100) as u32,
+            sampling_interval: *self.r.pick(&[-1.0, 0.0, 0.0, 1.0, 100.0, 1000.0, 1e9]),
+            filter: self.valid_filter(attribute_id),
+            queue_size: *self.r.pick(&[0u32, 1, 2, 5, 10, 11, u32::MAX]),
+            discard_oldest: self.r.chance(1, 2),
+        }
+    }
+
     fn mon_params(&mut self) -> MonitoringParameters {
         MonitoringParameters {
             client_handle: self.u32b(),
@@ -784,10 +916,15 @@ impl<'a> G<'a> {
         }
     }
 
+    fn mon_mode(&mut self) -> MonitoringMode {
+        *self.r.pick(&[MonitoringMode::Disabled, MonitoringMode::Sampling, MonitoringMode::Reporting])
+    }
+
     fn sub_id(&mut self) -> u32 {
-        match (self.s.sub_id, self.r.weighted(&[6, 1, 1])) {
-            (Some(id), 0) => id,
-            (_, 1) => 0,
+        match self.r.weighted(&[12, 1, 1, 1]) {
+            0 if !self.s.subs.is_empty() => *self.r.pick(&self.s.subs),
+            1 => 0,
+            2 => self.s.sub_id.unwrap_or(1),
             _ => self.u32b(),
         }
     }
@@ -804,7 +941,8 @@ impl<'a> G<'a> {
     }
 
     fn request(&mut self, kind: &str) -> Option<SupportedMessage> {
-        let h = header(&self.s.token);
+        let tok = self.token();
+        let h = header(&tok);
         let ttr = *self.r.pick(&[TimestampsToReturn::Source, TimestampsToReturn::Server, TimestampsToReturn::Both, TimestampsToReturn::Neither, TimestampsToReturn::Invalid]);
         Some(match kind {
             "read" => ReadRequest {
@@ -816,11 +954,23 @@ impl<'a> G<'a> {
             .into(),
             "write" => WriteRequest {
                 request_header: h,
-                nodes_to_write: self.list(|g| WriteValue {
-                    node_id: g.node(),
-                    attribute_id: g.attr(),
-                    index_range: if g.r.chance(1, 3) { g.string() } else { UAString::null() },
-                    value: DataValue::value_only(g.variant()),
+                nodes_to_write: self.list(|g| {
+                    if g.r.chance(2, 3) {
+                        // a value change of the monitored variable
+                        WriteValue {
+                            node_id: fx33().var.clone(),
+                            attribute_id: 13,
+                            index_range: UAString::null(),
+                            value: DataValue::value_only(Variant::Int32(g.r.below(1000) as i32)),
+                        }
+                    } else {
+                        WriteValue {
+                            node_id: g.node(),
+                            attribute_id: g.attr(),
+                            index_range: if g.r.chance(1, 3) { g.string() } else { UAString::null() },
+                            value: DataValue::value_only(g.variant()),
+                        }
+                    }
                 }),
             }
             .into(),
@@ -831,7 +981,7 @@ impl<'a> G<'a> {
                     timestamp: DateTime::null(),
                     view_version: 0,
                 },
-                requested_max_references_per_node: self.u32b(),
+                requested_max_references_per_node: if self.r.chance(1, 2) { 1 + self.r.below(3) as u32 } else { self.u32b() },
                 nodes_to_browse: self.list(|g| BrowseDescription {
                     node_id: g.node(),
                     browse_direction: *g.r.pick(&[BrowseDirection::Forward, BrowseDirection::Inverse, BrowseDirection::Both, BrowseDirection::Invalid]),
@@ -845,7 +995,7 @@ impl<'a> G<'a> {
             "browsenext" => BrowseNextRequest {
                 request_header: h,
                 release_continuation_points: self.r.chance(1, 2),
-                continuation_points: self.list(|g| ByteString::from(g.r.bytes(4))),
+                continuation_points: self.list(|g| if !g.s.cps.is_empty() && g.r.chance(3, 4) { g.r.pick(&g.s.cps).clone() } else { ByteString::from(g.r.bytes(4)) }),
             }
             .into(),
             "translate" => TranslateBrowsePathsToNodeIdsRequest {
@@ -907,79 +1057,108 @@ impl<'a> G<'a> {
                 request_header: h,
                 subscription_acknowledgements: self.list(|g| SubscriptionAcknowledgement {
                     subscription_id: g.sub_id(),
-                    sequence_number: g.u32b(),
+                    sequence_number: if g.r.chance(3, 4) { 1 + g.r.below(4) as u32 } else { g.u32b() },
                 }),
             }
             .into(),
             "republish" => RepublishRequest {
                 request_header: h,
                 subscription_id: self.sub_id(),
-                retransmit_sequence_number: self.u32b(),
+                retransmit_sequence_number: if self.r.chance(3, 4) { self.r.below(5) as u32 } else { self.u32b() },
             }
             .into(),
             "createmi" => CreateMonitoredItemsRequest {
                 request_header: h,
                 subscription_id: self.sub_id(),
-                timestamps_to_return: ttr,
-                items_to_create: self.list(|g| MonitoredItemCreateRequest {
-                    item_to_monitor: g.rvid(),
-                    monitoring_mode: *g.r.pick(&[MonitoringMode::Disabled, MonitoringMode::Sampling, MonitoringMode::Reporting]),
-                    requested_parameters: g.mon_params(),
+                timestamps_to_return: if self.r.chance(3, 4) { TimestampsToReturn::Both } else { ttr },
+                items_to_create: self.list(|g| {
+                    let item_to_monitor = g.rvid();
+                    let attr = item_to_monitor.attribute_id;
+                    MonitoredItemCreateRequest {
+                        item_to_monitor,
+                        monitoring_mode: g.mon_mode(),
+                        requested_parameters: g.mon_params_for(attr),
+                    }
                 }),
             }
             .into(),
-            "modmi" => ModifyMonitoredItemsRequest {
-                request_header: h,
-                subscription_id: self.sub_id(),
-                timestamps_to_return: ttr,
-                items_to_modify: self.list(|g| MonitoredItemModifyRequest {
-                    monitored_item_id: g.r.below(6) as u32,
-                    requested_parameters: g.mon_params(),
-                }),
+            "modmi" => {
+                let sub = self.sub_id();
+                ModifyMonitoredItemsRequest {
+                    request_header: h,
+                    subscription_id: sub,
+                    timestamps_to_return: if self.r.chance(3, 4) { TimestampsToReturn::Both } else { ttr },
+                    items_to_modify: self.list(|g| MonitoredItemModifyRequest {
+                        monitored_item_id: g.item_id(sub),
+                        requested_parameters: {
+                            let attr = *g.r.pick(&[13u32, 13, 12]);
+                            g.mon_params_for(attr)
+                        },
+                    }),
+                }
+                .into()
             }
-            .into(),
-            "setmonmode" => SetMonitoringModeRequest {
-                request_header: h,
-                subscription_id: self.sub_id(),
-                monitoring_mode: *self.r.pick(&[MonitoringMode::Disabled, MonitoringMode::Sampling, MonitoringMode::Reporting]),
-                monitored_item_ids: self.list(|g| g.r.below(6) as u32),
+            "setmonmode" => {
+                let sub = self.sub_id();
+                SetMonitoringModeRequest {
+                    request_header: h,
+                    subscription_id: sub,
+                    monitoring_mode: self.mon_mode(),
+                    monitored_item_ids: self.list(|g| g.item_id(sub)),
+                }
+                .into()
             }
-            .into(),
-            "settrig" => SetTriggeringRequest {
-                request_header: h,
-                subscription_id: self.sub_id(),
-                triggering_item_id: self.r.below(6) as u32,
-                links_to_add: self.list(|g| g.r.below(6) as u32),
-                links_to_remove: self.list(|g| g.r.below(6) as u32),
+            "settrig" => {
+                let sub = self.sub_id();
+                SetTriggeringRequest {
+                    request_header: h,
+                    subscription_id: sub,
+                    triggering_item_id: self.item_id(sub),
+                    links_to_add: self.list(|g| g.item_id(sub)),
+                    links_to_remove: self.list(|g| g.item_id(sub)),
+                }
+                .into()
             }
-            .into(),
-            "delmi" => DeleteMonitoredItemsRequest {
-                request_header: h,
-                subscription_id: self.sub_id(),
-                monitored_item_ids: self.list(|g| g.r.below(6) as u32),
+            "delmi" => {
+                let sub = self.sub_id();
+                DeleteMonitoredItemsRequest {
+                    request_header: h,
+                    subscription_id: sub,
+                    monitored_item_ids: self.list(|g| g.item_id(sub)),
+                }
+                .into()
             }
-            .into(),
+            // the two methods the server implements (Server.ResendData, Server.GetMonitoredItems, both
+            // take one UInt32 subscription id), with right / wrong / missing / surplus arguments,
+            // on the right and on other objects, and unknown methods
             "call" => CallRequest {
                 request_header: h,
-                methods_to_call: self.list(|g| CallMethodRequest {
-                    object_id: if g.r.chance(1, 2) { ObjectId::Server.into() } else { g.node() },
-                    method_id: if g.r.chance(1, 2) { NodeId::new(0, *g.r.pick(&[11492u32, 11489, 12873])) } else { g.node() },
-                    input_arguments: g.list(|g| g.variant()),
+                methods_to_call: self.list(|g| {
+                    let well_formed = g.r.chance(3, 4);
+                    CallMethodRequest {
+                        object_id: if well_formed || g.r.chance(1, 2) { ObjectId::Server.into() } else { g.node() },
+                        method_id: if well_formed || g.r.chance(1, 2) { NodeId::new(0, *g.r.pick(&[12873u32, 12873, 11492])) } else { g.node() },
+                        input_arguments: if well_formed {
+                            Some(vec![Variant::UInt32(g.sub_id())])
+                        } else {
+                            g.list(|g| g.variant())
+                        },
+                    }
                 }),
             }
             .into(),
             "histread" => HistoryReadRequest {
                 request_header: h,
-                history_read_details: match self.r.below(4) {
+                history_read_details: match self.r.below(7) {
                     0 => ExtensionObject::null(),
                     1 => ExtensionObject::from_encodable(
                         ObjectId::ReadRawModifiedDetails_Encoding_DefaultBinary,
                         &ReadRawModifiedDetails {
-                            is_read_modified: false,
+                            is_read_modified: self.r.chance(1, 2),
                             start_time: DateTime::null(),
                             end_time: DateTime::now(),
                             num_values_per_node: self.u32b(),
-                            return_bounds: false,
+                            return_bounds: self.r.chance(1, 2),
                         },
                     ),
                     2 => ExtensionObject::from_encodable(
@@ -994,48 +1173,168 @@ impl<'a> G<'a> {
                             },
                         },
                     ),
+                    3 => ExtensionObject::from_encodable(
+                        ObjectId::ReadProcessedDetails_Encoding_DefaultBinary,
+                        &ReadProcessedDetails {
+                            start_time: DateTime::null(),
+                            end_time: DateTime::now(),
+                            processing_interval: self.f64b(),
+                            aggregate_type: self.list(|g| g.node()),
+                            aggregate_configuration: AggregateConfiguration {
+                                use_server_capabilities_defaults: self.r.chance(1, 2),
+                                treat_uncertain_as_bad: self.r.chance(1, 2),
+                                percent_data_bad: self.r.next() as u8,
+                                percent_data_good: self.r.next() as u8,
+                                use_sloped_extrapolation: self.r.chance(1, 2),
+                            },
+                        },
+                    ),
+                    4 => ExtensionObject::from_encodable(
+                        ObjectId::ReadAtTimeDetails_Encoding_DefaultBinary,
+                        &ReadAtTimeDetails {
+                            req_times: self.list(|_| DateTime::now()),
+                            use_simple_bounds: self.r.chance(1, 2),
+                        },
+                    ),
+                    5 => {
+                        // a details type id with a body of another type
+                        let mut e = ExtensionObject::from_encodable(ObjectId::ReadAtTimeDetails_Encoding_DefaultBinary, &LiteralOperand { value: Variant::Int32(1) });
+                        if self.r.chance(1, 2) {
+                            e.node_id = ObjectId::ReadProcessedDetails_Encoding_DefaultBinary.into();
+                        }
+                        e
+                    }
                     _ => ExtensionObject::from_encodable(ObjectId::ReadRequest_Encoding_DefaultBinary, &LiteralOperand { value: Variant::Int32(1) }),
                 },
                 timestamps_to_return: ttr,
                 release_continuation_points: self.r.chance(1, 2),
                 nodes_to_read: self.list(|g| HistoryReadValueId {
                     node_id: g.node(),
-                    index_range: UAString::null(),
+                    index_range: if g.r.chance(1, 4) { g.string() } else { UAString::null() },
                     data_encoding: QualifiedName::null(),
-                    continuation_point: ByteString::null(),
+                    continuation_point: if g.r.chance(1, 4) { ByteString::from(g.r.bytes(4)) } else { ByteString::null() },
                 }),
             }
             .into(),
             "histupdate" => HistoryUpdateRequest {
                 request_header: h,
-                history_update_details: self.list(|g| match g.r.below(3) {
-                    0 => ExtensionObject::null(),
-                    1 => ExtensionObject::from_encodable(
-                        ObjectId::DeleteRawModifiedDetails_Encoding_DefaultBinary,
-                        &DeleteRawModifiedDetails {
-                            node_id: g.node(),
-                            is_delete_modified: false,
-                            start_time: DateTime::null(),
-                            end_time: DateTime::now(),
-                        },
-                    ),
-                    _ => ExtensionObject::from_encodable(ObjectId::ReadRequest_Encoding_DefaultBinary, &LiteralOperand { value: Variant::Int32(1) }),
+                history_update_details: self.list(|g| {
+                    let perform = *g.r.pick(&[PerformUpdateType::Insert, PerformUpdateType::Replace, PerformUpdateType::Update, PerformUpdateType::Remove]);
+                    match g.r.below(9) {
+                        0 => ExtensionObject::null(),
+                        1 => ExtensionObject::from_encodable(
+                            ObjectId::DeleteRawModifiedDetails_Encoding_DefaultBinary,
+                            &DeleteRawModifiedDetails {
+                                node_id: g.node(),
+                                is_delete_modified: g.r.chance(1, 2),
+                                start_time: DateTime::null(),
+                                end_time: DateTime::now(),
+                            },
+                        ),
+                        2 => ExtensionObject::from_encodable(
+                            ObjectId::UpdateDataDetails_Encoding_DefaultBinary,
+                            &UpdateDataDetails {
+                                node_id: g.node(),
+                                perform_insert_replace: perform,
+                                update_values: g.list(|g| DataValue::value_only(g.variant())),
+                            },
+                        ),
+                        3 => ExtensionObject::from_encodable(
+                            ObjectId::UpdateStructureDataDetails_Encoding_DefaultBinary,
+                            &UpdateStructureDataDetails {
+                                node_id: g.node(),
+                                perform_insert_replace: perform,
+                                update_values: g.list(|g| DataValue::value_only(g.variant())),
+                            },
+                        ),
+                        4 => ExtensionObject::from_encodable(
+                            ObjectId::UpdateEventDetails_Encoding_DefaultBinary,
+                            &UpdateEventDetails {
+                                node_id: g.node(),
+                                perform_insert_replace: perform,
+                                filter: EventFilter {
+                                    select_clauses: None,
+                                    where_clause: ContentFilter { elements: None },
+                                },
+                                event_data: g.list(|g| HistoryEventFieldList { event_fields: g.list(|g| g.variant()) }),
+                            },
+                        ),
+                        5 => ExtensionObject::from_encodable(
+                            ObjectId::DeleteAtTimeDetails_Encoding_DefaultBinary,
+                            &DeleteAtTimeDetails {
+                                node_id: g.node(),
+                                req_times: g.list(|_| DateTime::now()),
+                            },
+                        ),
+                        6 => ExtensionObject::from_encodable(
+                            ObjectId::DeleteEventDetails_Encoding_DefaultBinary,
+                            &DeleteEventDetails {
+                                node_id: g.node(),
+                                event_ids: g.list(|g| ByteString::from(g.r.bytes(4))),
+                            },
+                        ),
+                        7 => ExtensionObject::from_encodable(ObjectId::UpdateDataDetails_Encoding_DefaultBinary, &LiteralOperand { value: Variant::Int32(1) }),
+                        _ => ExtensionObject::from_encodable(ObjectId::ReadRequest_Encoding_DefaultBinary, &LiteralOperand { value: Variant::Int32(1) }),
+                    }
                 }),
             }
             .into(),
             "queryfirst" => QueryFirstRequest {
                 request_header: h,
                 view: ViewDescription {
-                    view_id: NodeId::null(),
+                    view_id: if self.r.chance(3, 4) { NodeId::null() } else { self.node() },
                     timestamp: DateTime::null(),
-                    view_version: 0,
+                    view_version: self.u32b(),
                 },
-                node_types: None,
-                filter: ContentFilter { elements: None },
+                node_types: self.list(|g| NodeTypeDescription {
+                    type_definition_node: ExpandedNodeId {
+                        node_id: g.node(),
+                        namespace_uri: UAString::null(),
+                        server_index: 0,
+                    },
+                    include_sub_types: g.r.chance(1, 2),
+                    data_to_return: g.list(|g| QueryDataDescription {
+                        relative_path: g.rel_path(),
+                        attribute_id: g.attr(),
+                        index_range: UAString::null(),
+                    }),
+                }),
+                filter: ContentFilter {
+                    elements: if self.r.chance(1, 2) {
+                        None
+                    } else {
+                        Some(vec![ContentFilterElement {
+                            filter_operator: FilterOperator::Equals,
+                            filter_operands: Some(vec![self.literal(), self.literal()]),
+                        }])
+                    },
+                },
                 max_data_sets_to_return: self.u32b(),
                 max_references_to_return: self.u32b(),
             }
             .into(),
+            "regserver" | "regserver2" => {
+                let server = RegisteredServer {
+                    server_uri: self.string(),
+                    product_uri: self.string(),
+                    server_names: self.list(|_| LocalizedText::from("n")),
+                    server_type: *self.r.pick(&[ApplicationType::Server, ApplicationType::Client, ApplicationType::ClientAndServer, ApplicationType::DiscoveryServer]),
+                    gateway_server_uri: self.string(),
+                    discovery_urls: self.list(|g| g.string()),
+                    semaphore_file_path: self.string(),
+                    is_online: self.r.chance(1, 2),
+                };
+                if kind == "regserver" {
+                    RegisterServerRequest { request_header: h, server }.into()
+                } else {
+                    RegisterServer2Request {
+                        request_header: h,
+                        server,
+                        discovery_configuration: self.list(|_| ExtensionObject::null()),
+                    }
+                    .into()
+                }
+            }
             "querynext" => QueryNextRequest {
                 request_header: h,
                 release_continuation_point: self.r.chance(1, 2),
@@ -1177,8 +1476,24 @@ impl Prop for C33 {
                 subtype_cycle_case(rng, out);
                 continue;
             }
-            out.push("reset".to_string());
+            // themed cases: request kinds that build on each other (a subscription, its items, the
+            // operations that change them, method calls naming them, timer ticks in between)
+            match rng.weighted(&[5, 4, 2]) {
+                1 => {
+                    subscription_case(rng, tier, out);
+                    continue;
+                }
+                2 => {
+                    view_attribute_case(rng, tier, out);
+                    continue;
+                }
+                _ => {}
+            }
+            out.push(if rng.chance(1, 12) { "reset ro".to_string() } else { "reset".to_string() });
             let len = if tier == Tier::Thorough { rng.range(3, 40) } else { rng.range(3, 20) };
+            // (browse name, parent) pairs and AddReferences ops issued so far, to repeat some of them
+            let mut used_names: Vec<(String, String)> = Vec::new();
+            let mut used_refs: Vec<String> = Vec::new();
             let mut fresh_name = 10u64;
             let mut fresh_id = 0u64;
             let mut nadded = 0u64; // upper bound of nodes added so far
@@ -1217,12 +1532,22 @@ impl Prop for C33 {
                             2 => format!("e{}", rng.below(3)),
                             _ => format!("{}:{}", rng.below(2), rng.below(3)),
                         };
-                        let parent = if rng.chance(3, 4) { rng.pick(&["s85", "s84", "s2253", "o0", "o1"]).to_string() } else { node_ref(rng, nadded) };
-                        let rt = match rng.weighted(&[6, 4, 1, 1, 1]) {
+                        let mut parent = if rng.chance(3, 4) { rng.pick(&["s85", "s84", "s2253", "o0", "o1"]).to_string() } else { node_ref(rng, nadded) };
+                        let mut bn = bn;
+                        if !used_names.is_empty() && rng.chance(1, 8) {
+                            // the same browse name under the same parent again
+                            let (b, p) = rng.pick(&used_names).clone();
+                            bn = b;
+                            parent = p;
+                        } else {
+                            used_names.push((bn.clone(), parent.clone()));
+                        }
+                        let rt = match rng.weighted(&[6, 4, 1, 1, 1, 1]) {
                             0 => "35".to_string(),
                             1 => "47".to_string(),
                             2 => "85".to_string(),
                             3 => "x".to_string(),
+                            4 => "39".to_string(), // HasDescription: a valid, non-hierarchical type
                             _ => "0".to_string(),
                         };
                         let td = match (cls, rng.weighted(&[8, 1, 1])) {
@@ -1272,7 +1597,13 @@ impl Prop for C33 {
                             _ => "85".to_string(),
                         };
                         let tclass = *rng.pick(&[1u32, 1, 1, 1, 8, 32, 2, 0]);
-                        out.push(format!(
+                        if !used_refs.is_empty() && rng.chance(1, 6) {
+                            // the same reference again (duplicate), sometimes in the other direction
+                            let prev = rng.pick(&used_refs).clone();
+                            out.push(prev);
+                            continue;
+                        }
+                        let line = format!(
                             "addref {} {} {} {} {} {} {}",
                             src,
                             tgt,
@@ -1281,7 +1612,9 @@ impl Prop for C33 {
                             tclass,
                             rt,
                             b(rng.chance(2, 3))
-                        ));
+                        );
+                        used_refs.push(line.clone());
+                        out.push(line);
                     }
                     2 => {
                         let what = *rng.pick(&["addnodes", "addrefs"]);
@@ -1339,6 +1672,78 @@ impl Prop for C33 {
     }
 }
 
+fn rq(rng: &mut Rng, kind: &str) -> String {
+    format!("rq {} {}", kind, rng.next() % 1_000_000_000)
+}
+
+fn tick_op(rng: &mut Rng) -> String {
+    match rng.weighted(&[6, 2, 3, 2, 1, 1]) {
+        0 => "tick".to_string(),
+        1 => "tick 50".to_string(),
+        2 => "tick 100".to_string(),
+        3 => "tick 1000".to_string(),
+        4 => "tick 60000".to_string(),
+        _ => "tick 3600000".to_string(),
+    }
+}
+
+/// life of subscriptions: create, add items in every monitoring mode, tick, then every operation
+/// that changes what was set up (modify, set mode, triggering, publishing mode, transfer, method
+/// calls naming the subscription, writes to the monitored variable, publish / republish, deletes)
+/// with ticks in between
+fn subscription_case(rng: &mut Rng, tier: Tier, out: &mut Vec<String>) {
+    out.push("reset".to_string());
+    out.push(rq(rng, "createsub"));
+    if rng.chance(1, 4) {
+        out.push(rq(rng, "createsub"));
+    }
+    for _ in 0..rng.range(1, 3) {
+        out.push(rq(rng, "createmi"));
+    }
+    out.push(tick_op(rng));
+    let len = if tier == Tier::Thorough { rng.range(5, 40) } else { rng.range(5, 22) };
+    for _ in 0..len {
+        let op = match rng.weighted(&[10, 5, 4, 4, 3, 4, 3, 3, 3, 2, 2, 2, 1, 1, 1, 2]) {
+            0 => tick_op(rng),
+            1 => rq(rng, "call"),
+            2 => rq(rng, "setmonmode"),
+            3 => rq(rng, "modmi"),
+            4 => rq(rng, "settrig"),
+            5 => rq(rng, "write"),
+            6 => rq(rng, "publish"),
+            7 => rq(rng, "createmi"),
+            8 => rq(rng, "setpubmode"),
+            9 => rq(rng, "modsub"),
+            10 => rq(rng, "delmi"),
+            11 => rq(rng, "republish"),
+            12 => rq(rng, "transfer"),
+            13 => rq(rng, "delsubs"),
+            14 => rq(rng, "createsub"),
+            _ => format!("evf {}", *rng.pick(&["eq:i,i", "not:n", "and:e1,e1;isnull:n", "gt:i,n", "-"])),
+        };
+        out.push(op);
+    }
+    out.push(tick_op(rng));
+}
+
+/// attribute, view, query, method and discovery services on valid and invalid targets
+fn view_attribute_case(rng: &mut Rng, tier: Tier, out: &mut Vec<String>) {
+    out.push("reset".to_string());
+    let len = if tier == Tier::Thorough { rng.range(5, 40) } else { rng.range(5, 20) };
+    let kinds = [
+        "read", "write", "browse", "browsenext", "translate", "regnodes", "unregnodes", "histread", "histupdate", "queryfirst",
+        "querynext", "call", "cancel", "getendpoints", "findservers", "regserver", "regserver2", "browse", "browsenext", "read", "write",
+    ];
+    for _ in 0..len {
+        if rng.chance(1, 10) {
+            out.push(tick_op(rng));
+        } else {
+            let k = *rng.pick(&kinds);
+            out.push(rq(rng, k));
+        }
+    }
+}
+
 /// two client-made reference types that are each other's subtype, then a Browse that follows one of
 /// them with subtypes (ends the case: the request never returns on the pinned source)
 fn subtype_cycle_case(rng: &mut Rng, out: &mut Vec<String>) {
@@ -1363,7 +1768,7 @@ impl Runner for R {
     fn step(&mut self, toks: &[&str]) -> (String, Verdict) {
         if toks[0] == "reset" {
             self.st = None;
-            self.st = Some(S::new());
+            self.st = Some(S::new(toks.get(1) == Some(&"ro")));
             return ("ok".to_string(), Verdict::Ok);
         }
         let st = match self.st.as_mut() {
@@ -1409,6 +1814,10 @@ impl Runner for R {
                             SupportedMessage::AddReferencesRequest(q) => q.references_to_add.clone().unwrap_or_default(),
                             _ => vec![],
                         };
+                        let created_on = match &m {
+                            SupportedMessage::CreateMonitoredItemsRequest(q) => q.subscription_id,
+                            _ => 0,
+                        };
                         let r = st.call(m);
                         if let Some(SupportedMessage::AddReferencesResponse(ref r)) = r {
                             for (x, it) in r.results.iter().flatten().zip(ref_items.iter()) {
@@ -1425,6 +1834,31 @@ impl Runner for R {
                             if st.sub_id.is_none() {
                                 st.sub_id = Some(r.subscription_id);
                             }
+                            st.subs.push(r.subscription_id);
+                        }
+                        if let Some(SupportedMessage::CreateMonitoredItemsResponse(ref r)) = r {
+                            for x in r.results.iter().flatten() {
+                                if x.status_code.is_good() {
+                                    st.items.push((created_on, x.monitored_item_id));
+                                }
+                            }
+                        }
+                        match r {
+                            Some(SupportedMessage::BrowseResponse(ref r)) => {
+                                for x in r.results.iter().flatten() {
+                                    if !x.continuation_point.is_null() {
+                                        st.cps.push(x.continuation_point.clone());
+                                    }
+                                }
+                            }
+                            Some(SupportedMessage::BrowseNextResponse(ref r)) => {
+                                for x in r.results.iter().flatten() {
+                                    if !x.continuation_point.is_null() {
+                                        st.cps.push(x.continuation_point.clone());
+                                    }
+                                }
+                            }
+                            _ => {}
                         }
                         if let Some(SupportedMessage::AddNodesResponse(ref r)) = r {
                             for x in r.results.iter().flatten() {
@@ -1440,6 +1874,87 @@ impl Runner for R {
             }
             ["tick"] => {
                 st.tick();
+                "ok".to_string()
+            }
+            // ---- explicit (seed-free) subscription ops, for corpus witnesses
+            ["sub"] => {
+                let saved = st.sub_id.take();
+                let id = st.ensure_subscription();
+                st.sub_id = saved.or(Some(id));
+                st.subs.push(id);
+                "ok".to_string()
+            }
+            ["item", mode] => {
+                // a data-change item on the variable, in the latest subscription, with the given mode
+                let sub = st.subs.last().copied().unwrap_or(0);
+                let req: SupportedMessage = CreateMonitoredItemsRequest {
+                    request_header: header(&st.token),
+                    subscription_id: sub,
+                    timestamps_to_return: TimestampsToReturn::Both,
+                    items_to_create: Some(vec![MonitoredItemCreateRequest {
+                        item_to_monitor: ReadValueId {
+                            node_id: fx33().var.clone(),
+                            attribute_id: 13,
+                            index_range: UAString::null(),
+                            data_encoding: QualifiedName::null(),
+                        },
+                        monitoring_mode: match *mode {
+                            "0" => MonitoringMode::Disabled,
+                            "1" => MonitoringMode::Sampling,
+                            _ => MonitoringMode::Reporting,
+                        },
+                        requested_parameters: MonitoringParameters {
+                            client_handle: 1,
+                            sampling_interval: 0.0,
+                            filter: ExtensionObject::null(),
+                            queue_size: 2,
+                            discard_oldest: true,
+                        },
+                    }]),
+                }
+                .into();
+                if let Some(SupportedMessage::CreateMonitoredItemsResponse(r)) = st.call(req) {
+                    for x in r.results.iter().flatten() {
+                        if x.status_code.is_good() {
+                            st.items.push((sub, x.monitored_item_id));
+                        }
+                    }
+                }
+                "ok".to_string()
+            }
+            ["setmode", mode] => {
+                let sub = st.subs.last().copied().unwrap_or(0);
+                let ids: Vec<u32> = st.items.iter().filter(|x| x.0 == sub).map(|x| x.1).collect();
+                let req: SupportedMessage = SetMonitoringModeRequest {
+                    request_header: header(&st.token),
+                    subscription_id: sub,
+                    monitoring_mode: match *mode {
+                        "0" => MonitoringMode::Disabled,
+                        "1" => MonitoringMode::Sampling,
+                        _ => MonitoringMode::Reporting,
+                    },
+                    monitored_item_ids: Some(ids),
+                }
+                .into();
+                let _ = st.call(req);
+                "ok".to_string()
+            }
+            ["resend"] | ["getitems"] => {
+                let sub = st.subs.last().copied().unwrap_or(0);
+                let req: SupportedMessage = CallRequest {
+                    request_header: header(&st.token),
+                    methods_to_call: Some(vec![CallMethodRequest {
+                        object_id: ObjectId::Server.into(),
+                        method_id: NodeId::new(0, if toks[0] == "resend" { 12873u32 } else { 11492u32 }),
+                        input_arguments: Some(vec![Variant::UInt32(sub)]),
+                    }]),
+                }
+                .into();
+                let _ = st.call(req);
+                "ok".to_string()
+            }
+            ["tick", ms] => {
+                st.tick_ms(ms.parse().unwrap_or(0));
                 "ok".to_string()
             }
             ["browse", node, rt, subtypes] => {
